@@ -222,11 +222,20 @@ type matz struct {
 	resets     int
 	snaps      int
 	errcb      int
+	snaparg    string // argument of the last WithOnSnapshot call
 }
 
 func newMatz(strict bool) *matz {
-	x := &matz{}
-	opts := []state.MaterializerOption{state.WithOnReset(func() { x.resets++ }), state.WithOnSnapshot(func(bool) { x.snaps++ }),
+	x := &matz{snaparg: "none"}
+	opts := []state.MaterializerOption{state.WithOnReset(func() { x.resets++ }),
+		state.WithOnSnapshot(func(start bool) {
+			x.snaps++
+			if start {
+				x.snaparg = "start"
+			} else {
+				x.snaparg = "end"
+			}
+		}),
 		state.WithOnError(func(error) { x.errcb++ })}
 	if strict {
 		opts = append(opts, state.WithStrictSchema())
@@ -313,7 +322,7 @@ func stateScenario(rnd *rand.Rand, storeKind, dir string, n int) ([][]byte, erro
 	for i, e := range evs {
 		err := x.m.Apply(e)
 		emit(map[string]any{"e": "apply", "off": i + 1, "msg": msgs[i], "err": err != nil, "state": x.triples(),
-			"last": offIdx[x.m.LastOffset()], "resets": x.resets, "snaps": x.snaps, "errcb": x.errcb})
+			"last": offIdx[x.m.LastOffset()], "resets": x.resets, "snaps": x.snaps, "errcb": x.errcb, "snaparg": x.snaparg})
 		// now and then a message goes in through the direct entry points (decoded from the stored document)
 		if msgs[i].Kind != "garbage" && rnd.IntN(6) == 0 {
 			var derr error
@@ -328,7 +337,7 @@ func stateScenario(rnd *rand.Rand, storeKind, dir string, n int) ([][]byte, erro
 				derr = x.m.ApplyChangeMessage(&cm)
 			}
 			emit(map[string]any{"e": "applydirect", "msg": msgs[i], "err": derr != nil, "state": x.triples(),
-				"last": offIdx[x.m.LastOffset()], "resets": x.resets, "snaps": x.snaps, "errcb": x.errcb})
+				"last": offIdx[x.m.LastOffset()], "resets": x.resets, "snaps": x.snaps, "errcb": x.errcb, "snaparg": x.snaparg})
 		}
 	}
 	// two sessions: Replay up to a split point (the callback stops it), then resume from LastOffset
@@ -587,6 +596,7 @@ func stateCheck(r *core.Run, prop string) {
 			}
 			return nil
 		}},
+		{"the snapshot callback was told 'end' for a snapshot-start marker", core.ReplaceFirst(`"e":"apply"`, `"snaparg":"start"`, `"snaparg":"end"`)},
 		{"the two-session materializer ended in another state", core.InsertIntoArray(`"e":"final"`, "state", `["ta","ghost",1]`)},
 	})
 	r.ValidateSegments(strings.ToLower(prop), "StateTrace", "", segs, func(rej core.SegReject) *core.Segment {
